@@ -63,14 +63,22 @@ class Drive:
                 s.peer.conn.latency = 0.0
                 for _, w in s.peer.data_conns:
                     w.transport.conn.latency = 0.0
-            if action == "rst":
+            if action in ("rst", "rst+close"):
                 s.peer.cut("rst")
+            elif action == "fin+close":
+                s.peer.cut("fin")
+            elif action == "quit+close":
+                if s.peer.writer is not None:
+                    s.peer.send("QUIT")
             elif action == "fin":
                 s.peer.cut("fin")
             elif action == "ctrl-rst":
                 s.peer.cut("rst", data=False)
                 for r, w in s.peer.data_conns:
                     self.drainers.append(asyncio.ensure_future(self._drain(r)))
+            elif action == "ctrl-rst-noread":
+                # control vanishes; the data socket stays open but the peer never reads it again
+                s.peer.cut("rst", data=False)
             elif action == "ctrl-fin":
                 s.peer.cut("fin", data=False)
                 for r, w in s.peer.data_conns:
@@ -79,10 +87,8 @@ class Drive:
                 for r, w in s.peer.data_conns:
                     w.transport.abort()
             elif action in ("server-close", "stall"):
-                # the peer stays, idle but reading
-                if action == "server-close":
-                    for r, w in s.peer.data_conns:
-                        self.drainers.append(asyncio.ensure_future(self._drain(r)))
+                # the peer stays, idle; a script blocked in a data read keeps reading
+                pass
             elif action == "stall-noread":
                 if s.peer.writer is not None:
                     s.peer.writer.transport.pause_reading()
@@ -92,6 +98,12 @@ class Drive:
                 raise ValueError(action)
         if action == "server-close":
             self.close_task = asyncio.ensure_future(self.world.server.close())
+        if action.endswith("+close"):
+            # the session ends on its own and Server.close() lands j loop iterations later,
+            # i.e. somewhere inside that session's own clean-up
+            def start_close():
+                self.close_task = asyncio.ensure_future(self.world.server.close())
+            self._chain(cut.get("close_after", 0), start_close)
 
     def _on_event(self, idx, conn, direction, kind, nbytes):
         if self.extra_hook is not None:
